@@ -272,6 +272,12 @@ def str_eq(a, b):
         return z3.And([a.length == nb] + [a.at(i) == b.at(i) for i in range(nb)])
     if a.arr.get_id() == b.arr.get_id() and z3.simplify(a.off).get_id() == z3.simplify(b.off).get_id():
         return a.length == b.length
+    ma, mb = a.max_len(), b.max_len()
+    if ma is not None or mb is not None:
+        m = min(x for x in (ma, mb) if x is not None)
+        # equal lengths imply the common length is <= m
+        return z3.And([a.length == b.length] +
+                      [z3.Implies(i < a.length, a.at(i) == b.at(i)) for i in range(m)])
     raise Unsupported("equality of two strings of unknown length")
 
 
@@ -416,8 +422,10 @@ class Exec(object):
         elif isinstance(v, type):
             if v in _BUILTIN_TYPES or v is range:
                 r = TypeName(v)
-            else:
+            elif v.__module__.startswith(("mingus", "contracts", "pyvc")) or issubclass(v, BaseException):
                 r = ClassRef(v)
+            else:
+                r = Builtin(v.__name__, v)
         elif isinstance(v, types.FunctionType):
             r = self.engine.funcref_of(v)
         elif isinstance(v, types.MethodType):
@@ -1113,8 +1121,9 @@ class Exec(object):
             if isinstance(a, (str, bytes)) and isinstance(b, (str, bytes)) and a == b:
                 return a
             a, b = as_sstr(a), as_sstr(b)
+            ma, mb = a.max_len(), b.max_len()
             return SStr(z3.If(c, a.length, b.length), z3.If(c, a.arr, b.arr), z3.If(c, a.off, b.off),
-                        is_bytes=a.is_bytes)
+                        is_bytes=a.is_bytes, maxlen=max(ma, mb) if ma is not None and mb is not None else None)
         if isinstance(a, (bool, SBool)) and isinstance(b, (bool, SBool)):
             ta, tb = self.truth(a), self.truth(b)
             ta = z3.BoolVal(ta) if isinstance(ta, bool) else ta
